@@ -385,3 +385,21 @@ def conversion_outputs(prog, fn_path, lo, hi):
             out[v] = got
     _ICO[key] = (out, unknown[:5])
     return _ICO[key]
+
+
+def check_try_from_wrapper(prog, res, rule, wrapper, inner, variant, arg):
+    """the versioned enum's `TryFrom` is `Ok(Variant(Inner::try_from(<the whole argument>)?))` and nothing else: it neither
+    accepts more (a prefix of the slice) nor less than the inner decoder, and hands back its error"""
+    from .. import accept
+    if wrapper not in prog.bodies:
+        from ..facts import AnchorMissing
+        raise AnchorMissing("wrapper not found: %s" % wrapper)
+    res.functions.add(wrapper)
+    tab = sorted([sorted(a), v] for a, v in accept.ret_table(prog, wrapper))
+    call = "%s(%s)" % (inner, arg)
+    want = sorted([[["%s is Err" % call], "Err{(%s as Err).0}" % call], [["%s is Ok" % call], "Ok{%s{%s?}}" % (variant, call)]])
+    if tab == want:
+        res.hit(rule)
+    else:
+        res.violate(rule, wrapper, "try-from-wrapper", "the wrapper's TryFrom is not `Ok(%s(%s::try_from(<whole argument>)?))`: %s" % (
+            variant, inner.split(" as ")[0].split("::")[-1], str(tab)[:400]), prog.bodies[wrapper].where())
